@@ -11,6 +11,10 @@ CLAIMS = {
   text="Theorems over the wrapper model for an arbitrary inner codec: stored form never longer than the input, tagged output is strictly shorter (so the reader's 'same length means raw' rule is sound), wrapper round trip relative to the codec contract, acceptance region of the default limit logic for all sizes up to 2^21, and the sparse decoder inverts every well-formed token stream (unbounded). Tied to the code by regenerated limit constants, byte-exact correspondence of the sparse codec, the wrapper and the limit decisions (boundary triples), and the compress->decompress oracle on the real codecs over nine compressibility classes.",
   note="partial: the half 'sparse_compress emits a well-formed token stream of its input' is validated (exhaustive zero-run sweep 0..800, boundary run lengths, random) but not proved; zlib/bzip2/LZMA/PKWare/Huffman/ADPCM internals are external crates (codec contract is a Section hypothesis, exercised by the oracle); wall-clock limits not modelled. Known finding: bzip2 of 2 MiB constant data exceeds the adaptive limit.",
   tech="Coq proof (wrapper/limit algebra by lia, sparse decoder by induction over tokens) + differential correspondence + implementation oracle"),
+ "C08": dict(
+  text="Theorems about the chain model for EVERY history of add/remove/set-priority/clear: the list is always sorted by priority; a stamped specification (fresh stamp per add/re-prioritisation) refines to the implementation's list and stays strictly ordered by (priority desc, stamp asc); lookup returns the holder that is best in that order (earliest added wins ties); absent names are not found; parallel construction equals sequential construction. Patch application: for an arbitrary digest function a successful apply implies base and result carry the declared digests (never unverified bytes), COPY yields exactly the payload, BSD0 yields exactly the declared size. Tied to the code by all histories of length <=2 (<=3 thorough) plus seeded longer ones on four real archives through the real PatchChain (sequential and parallel), and by the real apply_patch on well-formed and altered COPY/BSD0 patch files against the model (MD5 executable in Coq, checked against hashlib).",
+  note="partial: archives inside the chain are abstracted to 'listed name -> content' (tie: C01) and names are ASCII; entries with FLAG_PATCH_FILE inside archives cannot be produced by the builder, so read_patched_file's selection of base/patches is not exercised (the applier is). MD5 in theorems is an arbitrary function; executable MD5 is validated against hashlib.",
+  tech="Coq proof (invariants by induction over operation lists, refinement to a stamped spec) + bounded-exhaustive differential histories"),
  "C11": dict(
   text="Coq model of the target computation (Unix std::path components/join/file_name as used by the CLI) with the theorem that for EVERY entry name, with or without path preservation, the target lies strictly beneath the output directory and consists only of plain component names; refutation witnesses for the code as found. Tied to the code by running the real binary built from the working tree on grammar-generated archives (plain and patch-chain branch, explicit and whole-archive) inside a sandbox whose whole tree (and an absolute escape directory) is snapshotted before and after; the set of created files must equal the model's predicted targets.",
   note="Lexical containment only: pre-existing symlinks in the output tree are outside the property's quantifier and the model. std::path semantics are transcribed by hand for Unix; Windows prefixes are not modelled. The model is of the repaired extraction_target function (fix: commit in /repo).",
